@@ -530,6 +530,8 @@ class Ctx:
             # search for a failing input when something broke; in the thorough tier always, as a second, independent
             # comparison of the implementation with the specification-only machine
             self.spec_search()
+            if hasattr(mod, "search"):      # property-specific search for a concrete failing input
+                mod.search(self)
         known = known_findings(pid)
         violations = 0
         rc = 0
